@@ -524,3 +524,53 @@ limit_harness!(c11_limit_case_stream_1k_lowered, 2, 0x00, Some(1023));
 limit_harness!(c11_limit_case_all_144m_default, 3, 0x89, None);
 limit_harness!(c11_limit_case_all_128m_default, 3, 0x88, None);
 limit_harness!(c11_limit_case_all_1k_lowered, 3, 0x00, Some(1000));
+
+// ------------------------------------------------------------------------------------------------ C06/C10 slice API
+/// decode_from_to with the frame presented in chunks: chunk i makes bytes up to `ends[i]` available; unread bytes are
+/// presented again (as the documentation asks).  Target capacity per call `tcap`.  Every call reports read <= what it
+/// was given; in the end exactly the frame was consumed and exactly the content was written.
+pub(crate) fn from_to(sk: &Skel, ends: &[usize], tcap: usize) {
+    nd::set_stub_arg(0, 17);
+    let b = build(sk);
+    let mut dec = FrameDecoder::new();
+    let mut out = [0u8; MAXC + 8];
+    let mut pos = 0usize;
+    let mut n = 0usize;
+    let mut i = 0;
+    while i < ends.len() {
+        let end = ends[i];
+        let src = &b.data[pos..end];
+        let (r, w) = ok_or_fail!(dec.decode_from_to(src, &mut out[n..n + tcap]), "valid chunk refused");
+        assert!(r <= src.len(), "decode_from_to reports more bytes read than it was given");
+        assert!(w <= tcap);
+        pos += r; n += w;
+        i += 1;
+    }
+    // drain with an empty source
+    let mut k = 0;
+    while k < 3 {
+        let (r, w) = ok_or_fail!(dec.decode_from_to(&b.data[pos..pos], &mut out[n..n + tcap]), "drain refused");
+        assert!(r == 0, "bytes reported read from an empty source");
+        n += w;
+        k += 1;
+    }
+    assert!(pos == b.flen, "consumed count differs from the frame length");
+    assert!(dec.is_finished(), "frame not finished although every byte was supplied");
+    assert!(dec.bytes_read_from_source() == b.flen as u64);
+    if sk.checksum { assert!(dec.get_checksum_from_data() == Some(b.trailer)); }
+    nd_cover!(true, "all chunks consumed");
+    assert!(n == b.clen, "written count differs from the content length");
+    if b.clen > 0 {
+        let j: usize = nd::any();
+        nd::assume(j < b.clen);
+        assert!(out[j] == b.content[j], "decoded bytes differ from the content");
+    }
+    core::mem::forget(dec);
+}
+// RLE(3)+raw(2)+checksum: header 6, block1 ..10, block2 ..15, trailer ..19
+harness! { fn fd_from_to_whole() { from_to(&SK_RLE3_RAW2_CK, &[19], 8); } }
+harness! { fn fd_from_to_checksum_alone() { from_to(&SK_RLE3_RAW2_CK, &[15, 19], 8); } }
+harness! { fn fd_from_to_checksum_split_2_2() { from_to(&SK_RLE3_RAW2_CK, &[15, 17, 19], 8); } }
+harness! { fn fd_from_to_block_by_block_small_target() { from_to(&SK_RLE3_RAW2_CK, &[10, 15, 19], 2); } }
+harness! { fn fd_from_to_mid_block_chunks() { from_to(&SK_RLE3_RAW2_CK, &[8, 12, 16, 19], 8); } }
+harness! { fn fd_from_to_nock_two_chunks() { from_to(&SK_RLE3_RAW2, &[11, 15], 3); } }
